@@ -167,6 +167,13 @@ func newReader(src io.Reader, c rcfg, evs *[]event, ms *wsflate.MessageState) *w
 			return nil
 		}
 	}
+	if c.cb == 2 {
+		// a handler that only takes note of the frame and leaves its payload unread: the Reader has to skip it
+		rd.OnIntermediate = func(h ws.Header, r io.Reader) error {
+			*evs = append(*evs, event{byte(h.OpCode), true, ms.IsCompressed(), nil})
+			return nil
+		}
+	}
 	return rd
 }
 
@@ -420,7 +427,7 @@ func (c *ctx) randValidStream(side byte, nf int, maxPayload int) []sframe {
 	return fs
 }
 
-var chunkSpecs = []string{"-", "r1", "r2", "r3", "1,1,2", "5,1,9", "r7", "r4096"}
+var chunkSpecs = []string{"-", "r1", "r2", "r3", "1,1,2", "5,1,9", "r7", "r4096", "z,1,z,z,2,z,1,z,3,z,1,1,z,9,z,400,z"}
 var bufSpecs = []string{"1", "3", "4096", "2,7,1", "16"}
 
 func sideState(side byte) byte { return side } // 1 = server side, 2 = client side
